@@ -5,8 +5,8 @@ CONSTANTS NAsg = 3
  NInA = 2
  NInG = 1
  NPre = 1
- NPost = 4
- NNatPost = 2
+ NPost = 2
+ NNatPost = 1
  Deep = FALSE
 INVARIANT Sound
 INVARIANT ExecAgrees
